@@ -97,6 +97,10 @@ pub fn rtree(r: &mut StdRng, o: &TreeOpts, d: u32) -> Value {
             }
             m.insert(n, rtree(r, o, d - 1));
         }
+        if d < o.depth && r.gen_bool(0.04) {
+            // below the top level `_sd_alg` is an ordinary member name (draft-07 5.1.1: the marker exists at the top level only)
+            m.insert("_sd_alg".into(), rleaf(r, o));
+        }
         Value::Object(m)
     } else {
         let lo = if o.empty_arrays { 0 } else { 1 };
@@ -122,7 +126,7 @@ pub fn rclaims(r: &mut StdRng, o: &TreeOpts, now: u64) -> Value {
         }
     } {
         for (k, v) in t {
-            if !["iss", "exp", "iat", "sub", "aud", "nbf", "cnf", "jti"].contains(&k.as_str()) {
+            if !["iss", "exp", "iat", "sub", "aud", "nbf", "cnf", "jti", "_sd_alg"].contains(&k.as_str()) {
                 m.insert(k, v);
             }
         }
